@@ -328,6 +328,11 @@ class ViewEventResource(BaseResource):
         except Exception:
             self.log.exception("get-event")
         if event:
+            check_output = self.storage.check_output
+            if check_output and not check_output(
+                event, {"config": Config, "client_id": None, "auth_token": None}
+            ):
+                raise falcon.HTTPNotFound
             resp.media = event.to_json_object()
         else:
             raise falcon.HTTPNotFound
